@@ -166,17 +166,27 @@ func cmdCheck(args []string) {
 		if fn == nil {
 			continue
 		}
-		for _, b := range fn.Blocks {
-			for _, in := range b.Instrs {
-				ci, ok := in.(ssa.CallInstruction)
-				if !ok {
-					continue
-				}
-				if callee, ok := ci.Common().Value.(*ssa.Function); ok {
-					ck := callee.String()
-					if c := p.Contracts[ck]; c != nil && c.Kind == "func" && c.Mode != "trusted" && !inSet[ck] {
-						inSet[ck] = true
-						keys = append(keys, ck)
+		// helpers of the repository that have no contract are executed in place
+		// (DESIGN.md 12.15): what they call under contract belongs to the closure too
+		scan := []*ssa.Function{fn}
+		scanned := map[*ssa.Function]bool{fn: true}
+		for si := 0; si < len(scan); si++ {
+			for _, b := range scan[si].Blocks {
+				for _, in := range b.Instrs {
+					ci, ok := in.(ssa.CallInstruction)
+					if !ok {
+						continue
+					}
+					if callee, ok := ci.Common().Value.(*ssa.Function); ok {
+						ck := callee.String()
+						if c := p.Contracts[ck]; c != nil && c.Kind == "func" && c.Mode != "trusted" && !inSet[ck] {
+							inSet[ck] = true
+							keys = append(keys, ck)
+						} else if c == nil && callee.Pkg != nil && len(callee.Blocks) > 0 && !scanned[callee] && len(scan) < 64 &&
+							strings.HasPrefix(callee.Pkg.Pkg.Path(), "github.com/TheCacophonyProject/thermal-recorder") {
+							scanned[callee] = true
+							scan = append(scan, callee)
+						}
 					}
 				}
 			}
@@ -549,7 +559,15 @@ func cmdCheck(args []string) {
 		"A2 float64 is real arithmetic; float32 operations are uninterpreted with separately proved lemmas",
 		"A3 allocation succeeds and returns fresh storage",
 		"sync.Mutex Lock/Unlock are no-ops (sequential semantics); log output is not modelled; termination is not proved",
-		"callers see only callee contracts (modular); loops are cut at their invariants",
+		"callers see only callee contracts (modular); a function of the repository that has no contract, no loop and is not declared opaque is executed in place at its call (DESIGN.md 12.15); loops are cut at their invariants",
+	}
+	if len(p.Opaque) > 0 {
+		var ops []string
+		for o := range p.Opaque {
+			ops = append(ops, o)
+		}
+		sort.Strings(ops)
+		assumptions = append(assumptions, "functions of the repository abstracted at every call (declared opaque: arbitrary result, may modify what their arguments reach; not verified): "+strings.Join(ops, ", "))
 	}
 	if *prop == "C16" {
 		assumptions = append(assumptions,
